@@ -75,8 +75,10 @@ def make_fault_case(doc, picks, rng):
         if got != touched:
             problems.append('%s at %s changed %s, declared %s' % (kind, site, sorted(got), sorted(touched)))
         found = D.spec_violations(nxt)
-        if (kind not in found) if cur is doc else (not found):
-            # (a second fault may be hidden from the validator by the first, e.g. a variable of a missing component)
+        if cur is not doc and not found:
+            continue       # the second fault cancels the first (e.g. it removes the other source of a doubly fed target)
+        if cur is doc and kind not in found:
+            # (a SECOND fault may be hidden from the validator by the first, e.g. a variable of a missing component)
             problems.append('%s at %s: the reference validator does not find the fault' % (kind, site))
         cur = nxt
         done.append([kind, site])
@@ -92,7 +94,7 @@ def make_fault_case(doc, picks, rng):
 def gen(rng, n, tier):
     per_doc = 10 if tier == 'quick' else 40
     hows = ['first', 'middle', 'last', 'random']
-    made, ki, hi = 0, 0, 0
+    made, ki, hi, xi = 0, 0, 0, 0
     while made < n:
         doc = _valid_doc(rng)
         if D.spec_violations(doc):
@@ -110,7 +112,11 @@ def gen(rng, n, tier):
                 break
             r = rng.random()
             if r < 0.12:
-                f = _pick(D.xml_fault_sites(doc), 'random', rng)
+                xs = D.xml_fault_sites(doc)
+                xkinds = sorted({f_['kind'] for f_ in xs})
+                xk = xkinds[xi % len(xkinds)]
+                xi += 1
+                f = _pick([f_ for f_ in xs if f_['kind'] == xk], 'random', rng)
                 d = dict(doc, xml_faults=[f])
                 case = {'doc': d, 'kind': 'schema', 'faults': [['schema', [f['kind'], str(f.get('what')), f.get('n', 0)]]]}
                 err = D.xml_fault_check(vtext, D.to_xml_x(d), f)
